@@ -4,6 +4,7 @@
 From Coq Require Import Reals List Lra Psatz Nsatz.
 From EFLib Require Import C11_MatR.
 From EFP Require Import Gen_Pmat.
+From EFP Require Export C11_wf.
 Import ListNotations.
 Open Scope R_scope.
 
@@ -60,23 +61,6 @@ Proof.
 Qed.
 
 (* ---- Kelvin-Mandel scaling = D M D, D = diag(1,1,1,r2,r2,r2) *)
-Definition wf (n : nat) (M : mat) : Prop := length M = n /\ Forall (fun r => length r = n) M.
-
-Lemma wf6_inv M : wf 6 M -> exists r1 r2 r3 r4 r5 r6, M = [r1; r2; r3; r4; r5; r6] /\
-  length r1 = 6%nat /\ length r2 = 6%nat /\ length r3 = 6%nat /\ length r4 = 6%nat /\ length r5 = 6%nat /\ length r6 = 6%nat.
-Proof.
-  intros [HL HF]. do 6 (destruct M as [|? M]; [discriminate|]). destruct M; [|discriminate].
-  repeat match goal with H : Forall _ (_ :: _) |- _ => inversion H; clear H; subst end.
-  repeat eexists; eauto.
-Qed.
-Lemma wf3_inv M : wf 3 M -> exists r1 r2 r3, M = [r1; r2; r3] /\
-  length r1 = 3%nat /\ length r2 = 3%nat /\ length r3 = 3%nat.
-Proof.
-  intros [HL HF]. do 3 (destruct M as [|? M]; [discriminate|]). destruct M; [|discriminate].
-  repeat match goal with H : Forall _ (_ :: _) |- _ => inversion H; clear H; subst end.
-  repeat eexists; eauto.
-Qed.
-
 Theorem kelvin_voigt_scaling_3d : forall r2 M, r2 * r2 = 2 -> wf 6 M ->
   km3 r2 M = mmul 6 (mmul 6 (diagm [1; 1; 1; r2; r2; r2]) M) (diagm [1; 1; 1; r2; r2; r2]).
 Proof.
@@ -95,9 +79,6 @@ Proof.
   destruct (len3 _ L3) as (? & ? & ? & ->).
   clear - Hr. unfold km2, km_T2. mat_cbv. list_eq ltac:(first [ring | nsatz]).
 Qed.
-
-Example wf6_nonvacuous : wf 6 (ident 6).
-Proof. split; [reflexivity | repeat constructor]. Qed.
 
 Print Assumptions pmat3_orthogonal.
 Print Assumptions pmat2_orthogonal.
